@@ -44,3 +44,29 @@ pub broadcast proof fn axiom_any_post<'a, T, P: FnMut(&'a T) -> bool>(it: core::
         r ==> exists|i: int| 0 <= i < it.remaining().len() && call_ensures(p, (#[trigger] it.remaining()[i],), true),
         !r ==> forall|j: int| 0 <= j < it.remaining().len() ==> call_ensures(p, (#[trigger] it.remaining()[j],), false),
 {}
+
+// slice::IterMut::find (ASSUMED, std): returns the first element satisfying the predicate; the elements that were not
+// handed out are dropped unmodified.  (vstd's iter_mut ties `*final(remaining()[i])` to the final slice, so an
+// assignment through the returned reference can be followed.)
+pub uninterp spec fn find_mut_post<'a, T, P>(it: core::slice::IterMut<'a, T>, p: P, r: Option<&'a mut T>) -> bool;
+pub assume_specification<'a, T, P: FnMut(&<core::slice::IterMut<'a, T> as Iterator>::Item) -> bool>[ <core::slice::IterMut<'a, T> as Iterator>::find::<P> ](it: &mut core::slice::IterMut<'a, T>, p: P) -> (r: Option<<core::slice::IterMut<'a, T> as Iterator>::Item>)
+    where core::slice::IterMut<'a, T>: Sized
+    ensures find_mut_post(*old(it), p, r);
+#[verifier::external_body]
+pub broadcast proof fn axiom_find_mut_post<'a, T, P: FnMut(&&'a mut T) -> bool>(it: core::slice::IterMut<'a, T>, p: P, r: Option<&'a mut T>)
+    requires #[trigger] find_mut_post(it, p, r)
+    ensures
+        match r {
+            Some(x) => exists|i: int| 0 <= i < it.remaining().len() && x == #[trigger] it.remaining()[i] && call_ensures(p, (&x,), true)
+                && (forall|j: int| 0 <= j < i ==> call_ensures(p, (&#[trigger] it.remaining()[j],), false))
+                && (forall|j: int| 0 <= j < it.remaining().len() && j != i ==> *final(#[trigger] it.remaining()[j]) == *it.remaining()[j]),
+            None => (forall|j: int| 0 <= j < it.remaining().len() ==> call_ensures(p, (&#[trigger] it.remaining()[j],), false))
+                && (forall|j: int| 0 <= j < it.remaining().len() ==> *final(#[trigger] it.remaining()[j]) == *it.remaining()[j]),
+        }
+{}
+// PROVED bridging lemma for IterMut (the analogue of lemma_as_ref_index): facts about `remaining()[j]` become usable
+// from a goal that mentions `slice@[j]`
+pub broadcast proof fn lemma_iter_mut_bridge<'a, T>(rem: Seq<&'a mut T>, s: Seq<T>, j: int)
+    requires rem.len() == s.len(), 0 <= j < s.len(), forall|i: int| 0 <= i < rem.len() ==> *(#[trigger] rem[i]) == s[i]
+    ensures #![trigger rem.len(), s[j]] *rem[j] == s[j]
+{}
